@@ -4,6 +4,7 @@ import PyCraft.Props.C09Wire
 import PyCraft.Props.C10Wire
 import PyCraft.Props.C11Wire
 import PyCraft.Props.C18
+import PyCraft.Model.Aes
 /-!
 # One session on the wire — handshake → login → play as ONE byte stream
 
@@ -81,6 +82,8 @@ theorem session_bytes_decompose (S : Session) (z : ZlibOps) (E : Bytes → Bytes
   · show clientBytesWith .carry z E S = _
     rw [clientBytesWith_ok .carry z E S hport hname, playWire_carry z E S hplay]
     simp only [playFrames, m, pf]
+    generalize (finalMode S).cipher = c
+    cases c <;> rfl
   · show (if (loginEnd S).encrypted then some S.lp.secret else none) = _
     rw [loginEnd_encrypted]; rfl
   · show (exec S.lp .init S.loginSteps).threshold = _
@@ -301,33 +304,53 @@ theorem cipher_continues_across_login_to_play (S : Session) (z : ZlibOps) (E : B
       (plainPart.map (frameOfSent z S.ids)).flatten ++ (cfb8Enc E S.lp.secret loginTail).2 := hw
   simp only [hw', c1, hreg, List.append_assoc, play]
 
-/-- (c, negative witness) Restarting the cipher at the boundary is detected.  On the concrete
-session `demoSession` (protocol 757 ids; encryption, then threshold 8, a plugin request, success;
-in play two keep-alives and a position-and-look) the reference server recovers everything from
-pyCraft's stream; a client that installs a FRESH cipher for the play state
-(`Boundary.restartCipher`: IV = secret again) writes the same bytes up to the boundary and
+/-- (c, negative witness) Restarting the cipher at the boundary is detected — on either side.
+On the concrete session `demoSession` (protocol 757 ids; encryption, then threshold 8, a plugin
+request, success; in play two keep-alives and a position-and-look) the reference server recovers
+everything from pyCraft's stream.  Sender side: a client that installs a FRESH cipher for the play
+state (`Boundary.restartCipher`: IV = secret again) writes the same bytes up to the boundary and
 different bytes behind it, and the same server — whose ONE decryptor has moved on — gets the
-handshake and the login frames but NOT the play replies out of them. -/
+handshake and the login frames but NOT the play replies out of them.  Receiver side: the play part
+of pyCraft's real stream (its last 26 bytes, behind 48 plaintext bytes and the 5 encrypted bytes of
+the plugin response) is decoded by C11Wire's server when its decryptor starts from the CARRIED
+register `loginReg`, and is NOT when it starts from a fresh IV (= the secret). -/
 theorem cipher_restart_detected :
+    let E := toyEK demoLP.secret
+    let z := Zlib.ident.toZlibOps
+    let due := PlayWire.due demoSession.profile demoSession.pkts
     demoServer demoSession [demoBytes .carry demoSession] = expected demoSession "Steve" ∧
       demoBytes .restartCipher demoSession ≠ demoBytes .carry demoSession ∧
-      (demoBytes .restartCipher demoSession).take 48 = (demoBytes .carry demoSession).take 48 ∧
+      (demoBytes .restartCipher demoSession).take 53 = (demoBytes .carry demoSession).take 53 ∧
       (demoServer demoSession [demoBytes .restartCipher demoSession]).login =
         (expected demoSession "Steve").login ∧
-      (demoServer demoSession [demoBytes .restartCipher demoSession]).replies ≠
-        PlayWire.due demoSession.profile demoSession.pkts := by
+      (demoServer demoSession [demoBytes .restartCipher demoSession]).replies ≠ due ∧
+      PlayWire.serverDecodeReplies demoSession.profile (cfb8DecX E) (loginReg z E demoSession) z
+          true [(demoBytes .carry demoSession).drop 53] = (due, .eof) ∧
+      loginReg z E demoSession ≠ demoLP.secret ∧
+      (PlayWire.serverDecodeReplies demoSession.profile (cfb8DecX E) demoLP.secret z
+          true [(demoBytes .carry demoSession).drop 53]).1 ≠ due := by
   decide +kernel
 
-/-- (d) The threshold continues into play.  The threshold of the final login mode is the last
-`set compression` value the server sent before `login success` (`none` if it sent none), and EVERY
-play reply frame on the wire is `Packet._write_buffer` under exactly that value: without an
-announcement the frame is `VarInt(len payload) ++ payload` (no data-length field); with threshold
-`t` the frame body starts with the data-length field — `VarInt(len payload)` followed by
-`zlib.compress(payload)` iff `len payload > t` and `t ≠ -1`, else `0x00` followed by the payload
-as it is. -/
-theorem threshold_continues_into_play (S : Session) (z : ZlibOps) :
-    let thr := (finalMode S).threshold
-    thr = announced (events S.steps) ∧
+/-- (d) The threshold continues into play.  Let `thr` be the last `set compression` value the
+server sent before `login success` (`none` if it sent none).  It is the threshold of the final
+login mode, and the play part of the stream ON THE WIRE is — behind first frames and login frames,
+in plaintext or continuing the cipher stream — the concatenation of one frame per reply, EVERY one
+of them `Packet._write_buffer` under exactly `thr`: without an announcement the frame is
+`VarInt(len payload) ++ payload` (no data-length field); with threshold `t` the frame body starts
+with the data-length field — `VarInt(len payload)` followed by `zlib.compress(payload)` iff
+`len payload > t` and `t ≠ -1`, else `0x00` followed by the payload as it is. -/
+theorem threshold_continues_into_play (S : Session) (z : ZlibOps) (E : Bytes → Bytes)
+    (hport : S.conn.port < 65536) (hname : Neg.loginName S.conn ≠ none)
+    (hplay : ReachesPlay S) :
+    let thr := announced (events S.steps)
+    let frames := (playReplies S).map (PlayWire.replyFrame z thr S.profile)
+    (finalMode S).threshold = thr ∧
+      (clientBytes z E S).1 =
+        HsWire.firstBytes S.lsId S.conn S.plan ++
+          (wireBytes z E S.lp.secret S.ids (outbox S) ++
+            (match (finalMode S).cipher with
+             | none => frames.flatten
+             | some _ => (cfb8Enc E (loginReg z E S) frames.flatten).2)) ∧
       ∀ q ∈ playReplies S,
         let pay := packetPayload (PlayWire.replyFields S.profile q).1
           (PlayWire.replyFields S.profile q).2
@@ -338,10 +361,16 @@ theorem threshold_continues_into_play (S : Session) (z : ZlibOps) :
             frameBody z thr pay = encVarInt pay.length ++ z.deflate pay) ∧
           (∀ t, thr = some t → ¬((pay.length : Int) > t ∧ t ≠ -1) →
             frameBody z thr pay = 0 :: pay) := by
-  intro thr
-  refine ⟨?_, ?_⟩
-  · show (exec S.lp .init S.loginSteps).threshold = _
+  intro thr frames
+  have hthr : (finalMode S).threshold = thr := by
+    show (exec S.lp .init S.loginSteps).threshold = _
     rw [threshold_exec, events_loginSteps]
+  refine ⟨hthr, ?_, ?_⟩
+  · show (clientBytesWith .carry z E S).1 = _
+    rw [clientBytesWith_ok .carry z E S hport hname, playWire_carry z E S hplay]
+    simp only [playFrames, frames, hthr]
+    generalize (finalMode S).cipher = c
+    cases c <;> rfl
   · intro q _ pay
     refine ⟨rfl, ?_, ?_, ?_⟩
     · intro h; rw [h]; rfl
@@ -352,6 +381,24 @@ theorem threshold_continues_into_play (S : Session) (z : ZlibOps) :
       rw [if_neg hc, HsWire.encVarInt_zero]
       rfl
 
+/-- (d′) The server's ONE compression variable.  The script the reference server of a session
+runs (`serverScript`, derived from the login outbox and the final mode) reads exactly one frame
+per login frame and otherwise contains only "compression ON" entries — never "off": for EVERY run
+the compression flags of the login frames are monotone (a threshold, once set, is never unset —
+neither by a later login packet nor at `login success`) and the flag of the play phase is at least
+the flag of the last login frame.  So the server's flag is a single variable that starts off, is
+switched on when its `set compression` has taken effect, and is still on when play begins. -/
+theorem server_flag_only_switched_on (S : Session) :
+    (∀ e ∈ serverScript S, e = .frame ∨ e = .comp true) ∧
+      ((serverScript S).filter (· == .frame)).length = (outbox S).length ∧
+      (modesOf (outbox S)).Pairwise (fun a b => a = true → b = true) ∧
+      (∀ f ∈ outbox S, f.threshold.isSome = true → (finalMode S).threshold.isSome = true) := by
+  obtain ⟨h1, h2⟩ := serverScript_shape S
+  have hinv := thrInv_exec S.lp S.loginSteps
+  refine ⟨h1, h2, hinv.mono, ?_⟩
+  intro f hf hft
+  exact hinv.le _ (List.mem_map.mpr ⟨f, hf, rfl⟩) hft
+
 /-- (d, negative witness) Forgetting the threshold at the boundary is detected.  On `demoSession`
 (threshold 8 announced during login) a client that writes the play frames WITHOUT the data-length
 field (`Boundary.forgetThreshold`) produces a different stream — identical up to the boundary —
@@ -360,7 +407,7 @@ the login frames, then raises in the play phase and delivers no reply.  A sessio
 announcement (`demoPlainSession`) is recovered with the flag off throughout. -/
 theorem threshold_forgotten_detected :
     demoBytes .forgetThreshold demoSession ≠ demoBytes .carry demoSession ∧
-      (demoBytes .forgetThreshold demoSession).take 48 = (demoBytes .carry demoSession).take 48 ∧
+      (demoBytes .forgetThreshold demoSession).take 53 = (demoBytes .carry demoSession).take 53 ∧
       (demoServer demoSession [demoBytes .forgetThreshold demoSession]).login =
         (expected demoSession "Steve").login ∧
       (demoServer demoSession [demoBytes .forgetThreshold demoSession]).replies = [] ∧
@@ -431,6 +478,20 @@ example : hexOfBytes (demoBytes .carry demoSession) =
         ([0x04, 0x00, 0x02, 0x05, 0x00] ++
           [0x0a, 0x09, 0x0f, 0, 0, 0, 0, 0, 0, 0, 1, 0x03, 0x00, 0x00, 0x07,
            0x0a, 0x09, 0x0f, 0, 0, 0, 0, 0, 0, 0, 2])).2 := by decide +kernel
+
+/-- … and under the block function pyCraft uses, AES-128 keyed with the secret (`Model/Aes.lean`,
+tied to FIPS-197 / SP 800-38A in `Props/C18.lean`): the hex of the whole stream — 48 plaintext
+bytes, then 31 bytes of ONE AES-128-CFB8 stream (key = IV = secret) over the plugin response and
+the three play frames — and the reference server with AES recovering the session from it. -/
+example : hexOfBytes (clientBytes Zlib.ident.toZlibOps (aes128 demoLP.secret) demoSession).1 =
+    "1000f505096c6f63616c686f737463dd02" ++ "0700055374657665" ++
+    "16011107101112131415161718191a1b1c1d1e1f020709" ++
+    "b365670313" ++ "9bf577f8be86e6fb6248e509736f20bd4f53867ee43773aea01d" := by decide +kernel
+example :
+    serverRecoverSession Zlib.ident.toZlibOps aes128 (demoSession.lp.rsa.dec []) demoSession.lsId
+        demoSession.ids.encResp demoSession.profile (serverScript demoSession)
+        [(clientBytes Zlib.ident.toZlibOps (aes128 demoLP.secret) demoSession).1] =
+      expected demoSession "Steve" := by decide +kernel
 
 /-- (b) instantiated: the hypotheses are satisfiable by `demoSession`, and the conclusion for an
 arrival in four segments that cut through the handshake, the encryption response, the cipher
